@@ -891,17 +891,21 @@ def loopstate_obligation(prop):
                             f"the previous one (another tomogram, group, file) stored")
                     if b is not None:
                         ctx.finding(q, f"loop state of {v}", text + f"; on the pinned tree every iteration assigned `{v}` before reading it", node, m)
-                    elif base is not None and _reads_before_loop_init(fn, v, loop):
-                        undec.append((q, node, text))
                     else:
-                        undec.append((q, node, text))
+                        # a variable without reference: a confirmed carried variable under another name (locals renamed) as long as the function has no more
+                        # such variables than the reference lists for it; one more than that is new and not decided
+                        gone = [bv for bv, bt in (base or {}).items() if "stale" in bt[2] and bv not in f]
+                        fresh = [fv for fv, fr_ in f.items() if "stale" in fr_["carried"] and (base is None or fv not in base)]
+                        if len(fresh) > len(gone):
+                            undec.append((q, node, text))
                     continue
                 if b is None:
                     continue
                 b_init, b_upd = b[0], b[1]
                 # (4) a value that the pinned tree never changed inside a loop is now replaced by a function of itself on every iteration (squared again,
                 #     converted again): the first iteration gets the intended value, the second one the function applied twice
-                if "self-update" not in b[2] and "self-update" in car:
+                # (a variable the pinned tree already carried deliberately -- previous value, counter, best so far -- may well be updated in one statement now)
+                if not (set(b[2]) & {"self-update", "explicit-previous", "accumulator-read", "guarded-update"}) and "self-update" in car:
                     su = [x for x in r.get("self_updates", []) if x[1] == "other" and init and x[2] > min(init)]
                     if su:
                         ctx.finding(q, f"loop state of {v}", f"`{norm_text(su[0][0])[:70]}` replaces `{v}` by a function of itself inside a loop, and nothing in the iteration sets `{v}` "
